@@ -842,26 +842,35 @@ class TaskScenario(ScenarioData):
             else:
                 precise_end = self.project["start"]
 
-        # Release unused portion of the slot back to the resource
-        seconds_unused = slot_duration_seconds - seconds_into_slot
-        if seconds_unused > 0 and resource:
-            res_scenario = resource.data[self.scenarioIdx] if resource.data else None
-            if res_scenario:
-                # Update the per-task usage record to reflect actual usage
-                if self.currentSlotIdx in res_scenario.slotTaskUsage:
-                    # Find and update this task's entry
-                    for i, (task, _secs) in enumerate(res_scenario.slotTaskUsage[self.currentSlotIdx]):
-                        if task == self.property:
-                            res_scenario.slotTaskUsage[self.currentSlotIdx][i] = (task, seconds_into_slot)
-                            break
+        # Release the unused portion of the slot back to every resource booked for
+        # this task in this slot. Other tasks may already occupy the head of the
+        # slot, so the task's own portion starts after what was used before it.
+        used_before = 0.0
+        booked_resources = list(self._selectedResources or [])
+        if resource and resource not in booked_resources:
+            booked_resources.append(resource)
+        for res in booked_resources:
+            res_scenario = res.data[self.scenarioIdx] if res.data else None
+            if not res_scenario or self.currentSlotIdx not in res_scenario.slotTaskUsage:
+                continue
+            usage = res_scenario.slotTaskUsage[self.currentSlotIdx]
+            for i in range(len(usage) - 1, -1, -1):
+                task, booked = usage[i]
+                if task == self.property:
+                    # Keep only what the task needs of what it booked
+                    needed = min(seconds_into_slot, booked)
+                    old_total = res_scenario.slotSecondsUsed.get(self.currentSlotIdx, booked)
+                    usage[i] = (task, needed)
+                    res_scenario.slotSecondsUsed[self.currentSlotIdx] = old_total - booked + needed
+                    if res is resource:
+                        used_before = max(0.0, old_total - booked)
+                    break
 
-                # Update total slotSecondsUsed to release unused time
-                # Old value was full slot duration, new value is actual usage
-                old_total = res_scenario.slotSecondsUsed.get(self.currentSlotIdx, slot_duration_seconds)
-                # Subtract what was previously booked (full slot) and add actual usage
-                res_scenario.slotSecondsUsed[self.currentSlotIdx] = (
-                    old_total - slot_duration_seconds + seconds_into_slot
-                )
+        if used_before > 0 and slot_start is not None:
+            # The end (start in backward mode) lies after the part of the slot
+            # that was already taken when this task booked it
+            shift = timedelta(seconds=round(used_before + seconds_into_slot) - seconds_rounded)
+            precise_end = precise_end + shift if forward else precise_end - shift
 
         return precise_end, seconds_into_slot
 
